@@ -388,13 +388,98 @@ def _loop_scenarios() -> list[Scenario]:
     return out
 
 
+# ---- "status through the status subresource exactly when the resource has one", with the resource as DISCOVERED by the operator ----
+
+import dataclasses as _dc
+from kv.world import CRDS, EVENTS, NAMESPACES, Kind
+
+KEXSETS = Kind('kopf.dev', 'v1', 'kopfexamplesets', 'KopfExampleSet', 'kopfexampleset', True)      # its plural extends 'kopfexamples'
+KEXSETS_SUB = _dc.replace(KEXSETS, subresources=frozenset({'status'}))
+
+
+class DiscoveredScenario(Scenario):
+    """The whole operator against a cluster with two kinds of one group whose plural names stand in a prefix relation; exactly one of
+    them has a status subresource. A creation handler returns a result (delivered into the status) - it has to arrive, and through the
+    endpoint the kind really has."""
+    name = 'c08-discovered'
+    prop = 'C08'
+    horizon = 30.0
+
+    def __init__(self, **params: Any) -> None:
+        super().__init__(**params)
+        self.served = {'kex': KEX, 'kex+status': KEX_SUB}[params['served']]
+        self.sibling = {'sets': KEXSETS, 'sets+status': KEXSETS_SUB}[params['sibling']]
+        self.kinds = [NAMESPACES, EVENTS, CRDS, self.served, self.sibling]
+
+    def delays(self, env: Env, req: Request) -> bool:
+        return False
+
+    def allow_time_deviation(self, env: Env) -> bool:
+        return False
+
+    def allow_early_user(self, env: Env, action: UserAction) -> bool:
+        return False
+
+    def setup(self, env: Env) -> None:
+        import kopf
+        from kv.harness.op import Operator, add_login
+        reg = kopf.OperatorRegistry()
+        add_login(reg, env.world)
+
+        async def c1(**kw: Any) -> Any:
+            env.log('call', id='c1', name=kw['name'], kind=kw['body'].get('kind'))
+            return {'k': 'v'}
+        kopf.on.create('kopfexamples', id='c1', registry=reg)(c1)
+        if self.params.get('handle_sibling'):
+            kopf.on.create('kopfexamplesets', id='c1', registry=reg)(c1)
+        self.op = Operator(env, 'A', reg, make_settings(persistence__consistency_timeout=5.0))
+        self.op.start()
+
+    def script(self, env: Env) -> list[UserAction]:
+        def mk(kind: Kind, name: str) -> Any:
+            return lambda e: e.world.create(kind, 'ns', name, {'spec': {'x': 1}})
+        out = [UserAction(3.0, 'create-a', mk(self.served, 'a'))]
+        if self.params.get('handle_sibling'):
+            out.append(UserAction(4.0, 'create-s', mk(self.sibling, 's')))
+        return out
+
+    def check(self, env: Env) -> list[Violation]:
+        if env.end_reason in ('stall', 'livelock', 'step-budget', 'deadlock'):
+            return [self.viol(env, 'no-progress', f'execution ended with {env.end_reason}', end=env.end_reason)]
+        out: list[Violation] = []
+        if env.owes():
+            return out
+        pairs = [(self.served, 'a')] + ([(self.sibling, 's')] if self.params.get('handle_sibling') else [])
+        for kind, name in pairs:
+            has_sub = 'status' in kind.subresources
+            reqs = [r for r in env.world.requests if r.method == 'patch' and f'/{kind.plural}/{name}' in r.path]
+            to_sub = [r for r in reqs if r.path.endswith('/status')]
+            if to_sub and not has_sub:
+                out.append(self.viol(env, 'wrong-endpoint', f"{kind.plural} has no status subresource, yet {len(to_sub)} PATCH request(s) went to {to_sub[0].path} "
+                                                            f"(answered {to_sub[0].status})", part='status', served=self.params['served'], sibling=self.params['sibling']))
+            obj = env.world.get(kind, 'ns', name)
+            got = ((obj or {}).get('status') or {}).get('c1')
+            called = any(k == 'call' and p.get('name') == name for _, k, p in env.obs)
+            if called and got != {'k': 'v'}:
+                out.append(self.viol(env, 'status-lost', f"the creation handler of {kind.plural}/{name} returned a result; the object's status holds {got!r} for it "
+                                                         f"(status subresource: {has_sub}; PATCH requests: {[(r.path.rsplit('/', 2)[-1], r.status) for r in reqs]})",
+                                     part='status', served=self.params['served'], sibling=self.params['sibling']))
+            if not called:
+                out.append(self.viol(env, 'status-lost', f"the creation handler of {kind.plural}/{name} was never invoked", part='handler'))
+        return out
+
+
+def discovered_scenarios() -> list[Scenario]:
+    return [DiscoveredScenario(served=a, sibling=b, handle_sibling=h) for a in ('kex', 'kex+status') for b in ('sets', 'sets+status') for h in (False, True)]
+
+
 def run(tier: str, seed: int) -> CheckResult:
     base, deep = scenarios(tier)
     loop = _loop_scenarios()
     if tier == 'quick':
-        groups = [('one-foreign-write+injected-answers', base, 2, 50.0), ('two-foreign-writes', deep, 2, 40.0), ('carry-over-in-the-loop', loop, 2, 40.0)]
+        groups = [('one-foreign-write+injected-answers', base, 2, 50.0), ('two-foreign-writes', deep, 2, 40.0), ('carry-over-in-the-loop', loop, 2, 40.0), ('discovered-status-subresource', discovered_scenarios(), 0, 20.0)]
     else:
-        groups = [('one-foreign-write+injected-answers', base, 3, 600.0), ('two-foreign-writes', deep, 3, 600.0), ('carry-over-in-the-loop', loop, 3, 600.0)]
+        groups = [('one-foreign-write+injected-answers', base, 3, 600.0), ('two-foreign-writes', deep, 3, 600.0), ('carry-over-in-the-loop', loop, 3, 600.0), ('discovered-status-subresource', discovered_scenarios(), 1, 60.0)]
     stats, viols, info, nscen = run_groups(groups, seed=seed)
     return CheckResult(
         prop='C08', tier=tier, seed=seed, stats=stats, violations=viols, scenarios=nscen,
@@ -408,6 +493,8 @@ def run(tier: str, seed: int) -> CheckResult:
 
 
 def scenario_from(name: str, params: dict[str, Any]) -> Scenario:
+    if name == 'c08-discovered':
+        return DiscoveredScenario(**params)
     if name == 'c08-loop':
         _loop_scenarios()
         return globals()['CarryOverScenario'](**params)
